@@ -1,16 +1,94 @@
-GROUP = dict(crate='dukenest', file='dukenest/src/lib.rs', harness_file='nest.rs', functions=[], trusted=[], tests=[
-    dict(name='jar_nesting_wide', props=['C14'], text='draft', bound='draft', timeout=900, tier='quick'),
-    dict(name='jar_nesting_deep', props=['C14'], text='draft', bound='draft', timeout=900, tier='quick'),
-    dict(name='jar_nesting_absent_classes', props=['C14'], text='draft', bound='draft', timeout=900, tier='quick'),
-    dict(name='jar_nesting_absent_classes__listed_class_missing_but_enclosing', props=['C14'], text='draft', bound='draft', timeout=900, tier='quick'),
-    dict(name='jar_attributes_without_renaming', props=['C14'], text='draft', bound='draft', timeout=900, tier='quick'),
-    dict(name='jar_nesting_wide__generic_signatures', props=['C14'], text='draft', bound='draft', timeout=900, tier='quick'),
-    dict(name='jar_nesting_wide__anonymous_index_beyond_i32', props=['C14'], text='draft', bound='draft', timeout=900, tier='quick'),
-    dict(name='translate_nests', props=['C14'], text='draft', bound='draft', timeout=900, tier='quick'),
-    dict(name='translate_nests_dollar_source_names', props=['C14'], text='draft', bound='draft', timeout=900, tier='quick'),
-    dict(name='translate_nests__custom_name_that_is_a_suffix', props=['C14'], text='draft', bound='draft', timeout=900, tier='quick'),
-    dict(name='mappings_apply_and_undo', props=['C14'], text='draft', bound='draft', timeout=900, tier='quick'),
-    dict(name='jar_and_mappings_agree', props=['C14'], text='draft', bound='draft', timeout=900, tier='quick'),
-    dict(name='cyclic_table_returns', props=['C14'], text='draft', bound='draft', timeout=900, tier='quick'),
-    dict(name='canary_must_fail', props=[], canary=True, text='must fail', bound=''),
-])
+"""Enumeration group `nest`: bounded stand-in checks for dukenest (harness kx/enum/nest.rs, property C14).
+
+GROUP has exactly the shape of an entry of kx.groups.ENUM_GROUPS (picked up by kx.groups._load_group_files as ENUM_GROUPS['nest']).
+
+Install: the harness calls `nest_jar`, `apply_nests_to_mappings`, `undo_nests_to_mappings`, `remap_nests` and uses `Result`, `Jar`, `ParsedJar`,
+`ClassRepr`, `Mappings`, `Nests` through `use super::*`, plus `crate::nest::{Nest, NestType}` and the dependencies duke, dukebox, quill, indexmap,
+java_string of dukenest: it is appended as `#[cfg(test)] mod verif_enum_nest` to dukenest/src/lib.rs (crate dukenest, cargo target --lib).
+
+Universes (all counts are checked by the `cases=` numbers the tests print):
+
+Jars: classes p/U (never listed; its super class is p/C1), p/H (enclosing class), candidates p/C1..p/Ck; p/M is never in a jar.  Every class
+   declares m()V, n(Lp/C1;)V, <init>()V and refers to every class of the pool {p/H, p/M, p/U, java/lang/Object, q/Other$In1, p/C1..p/Ck} as super class /
+   interface, NestHost, field types Lx; and [[Lx;, in the descriptor, the Exceptions and the code of a method `refs` (new, checkcast of [Lx;, instanceof, anewarray,
+   ldc class, getfield, putstatic, invokevirtual, invokestatic, invokeinterface with descriptors naming x); p/H and p/C2 carry an InnerClasses entry beforehand;
+   a directory entry and a resource whose name and content look like class names must survive unchanged.
+Tables over k candidates: candidate i is absent or nested in p/H, p/M or an earlier candidate in one of the given variants:
+   0 inner, custom name | 1 inner, derived name Ci | 2 inner with an enclosing method that exists (rule: not applied) | 3 inner with a method that does not exist |
+   4 local in m()V | 5 local in n(Lp/C1;)V, name 2Ci | 6 local in m(I)V (absent: not applied) | 7 local without method (not applied) | 8 anonymous i | 9 anonymous i in m()V |
+   10 anonymous "0" (not applied) | 11 anonymous "xi" (not applied) | 12 anonymous "00i" with an absent method.  Access flags vary over 5 values.
+Mapping sets (namespaces a, b): p/U -> t/TU, p/H -> t/TH or absent, candidate i absent / Plain t/Xi / Calamus t/u/C_i7 / PreNested t/TH__Ni; every class with 3 fields and
+   3 methods whose descriptors name p/C1, p/C2, p/C3, p/U, p/H, comments and parameters.
+All expected results are computed at model level (plain strings); the harness never calls a remapper.
+"""
+
+_V13 = 'all 13 variants (inner custom / derived / with existing / absent method; local with existing / class-naming / absent / no method; anonymous with and without method, "0", non-numeric, leading zeros)'
+
+GROUP = dict(
+    crate='dukenest', file='dukenest/src/lib.rs', harness_file='nest.rs',
+    functions=['dukenest/src/lib.rs::nest_jar', 'dukenest/src/lib.rs::apply_nests_to_mappings', 'dukenest/src/lib.rs::undo_nests_to_mappings', 'dukenest/src/lib.rs::remap_nests',
+               'dukenest/src/nester_jar.rs::nest_jar', 'nester_jar::nest_jar::remap', 'nester_jar::do_nested_class_attribute_class_visitor', 'nester_jar::strip_local_class_prefix',
+               'dukenest/src/nester_run.rs::apply_nests_to_mappings', 'dukenest/src/nester_run.rs::undo_nests_to_mappings', 'nester_run::MyRemapper::new / build_translation',
+               'nester_run::replace_double_underscore_with_dollar', 'dukenest/src/nests_mapper_run.rs::map_nests', 'nests_mapper_run::inner_name', 'nests_mapper_run::NestTypeA::new',
+               'nests_mapper_run::rsplit_underscore', 'nests_mapper_run::construct_inner_name_from_anonymous_number', 'dukenest/src/nest.rs::Nests::add',
+               'dukebox/src/remap.rs::remap_class (as called by nest_jar)', 'dukebox/src/remap.rs::remap_jar_entry_name / remap_jar_entry_name_java'],
+    trusted=['nest harness (kx/enum/nest.rs): own models of a jar (class name, version, methods, references), of a nests table and of a two-namespace mapping set; own generator of duke class trees from '
+             'the model with the renaming applied at model level; the jar oracle is written from the statement of C14 (applied iff present and the rule of the kind holds: anonymous = decimal number >= 1, '
+             'inner = enclosing method not declared by the enclosing class, local = declared; name = Enclosing$Inner transitively over applied nests; InnerClasses entry per JVMS 4.7.6 with outer class only '
+             'for members, inner name without the digit prefix for locals, none for anonymous; EnclosingMethod for anonymous and local; a missing enclosing class of an applied nest must be created, of a listed '
+             'but not applied nest may be created, as an empty top-level class).  The translation oracle: names of the target namespace; a target name Outer__Inner is taken as already nested; a derived inner name '
+             '(the simple name of the class, or the part after its last `$`) becomes the simple name of the mapped class, a Calamus name C_<n> gives the anonymous index n, a custom name stays.  '
+             'Mapping sets reach the real code through quill::tiny_v2::read of text rendered by the harness.  Classes are identified across renaming by SourceFile / class comment marks.'],
+    tests=[
+        dict(name='jar_nesting_wide', props=['C14'], tier='thorough', timeout=1200,
+             text='nest_jar(remap = true) renames exactly the listed classes that are present and satisfy the rule of their kind to Enclosing$Inner (transitively), stores them under the new entry name, rewrites '
+                  'every reference (super class, interfaces, NestHost, field and method descriptors, Exceptions, all instruction operands, the old InnerClasses entry), adds the InnerClasses entry (and EnclosingMethod '
+                  'for anonymous and local classes, its method descriptor rewritten), creates a missing enclosing class as an empty class entry, keeps every other entry byte for byte and adds nothing else.',
+             bound='jar {p/U, p/H, p/C1, p/C2, p/C3}; all 57240 tables over 3 candidates x enclosing class p/H / p/M (missing) / an earlier candidate x ' + _V13 + '; 57240 cases'),
+        dict(name='jar_nesting_deep', props=['C14'], tier='thorough', timeout=1200,
+             text='The same for chains of depth up to 4, with the rows of the table in reverse order (inner classes listed before their enclosing classes).',
+             bound='jar {p/U, p/H, p/C1..p/C4}; all 41769 tables over 4 candidates x enclosing class p/H / p/M / an earlier candidate x 4 variants (inner derived, inner with existing method = not applied, local in n(Lp/C1;)V, anonymous in m()V), rows reversed; 41769 cases'),
+        dict(name='jar_nesting_absent_classes', props=['C14'], tier='quick', timeout=600,
+             text='The same when listed classes are missing from the jar: their nests are not applied, references to them stay, nests of present classes are applied; rows in both orders.',
+             bound='8 jars {p/U, p/H} + every subset of {p/C1, p/C2, p/C3} x all 315 tables over 3 candidates with variants {inner custom, anonymous in m()V}, each table also reversed; without the combinations '
+                   'of jar_nesting_absent_classes__listed_class_missing_but_enclosing; 4168 cases'),
+        dict(name='jar_nesting_absent_classes__listed_class_missing_but_enclosing', props=['C14'], tier='quick', timeout=600,
+             text='The same for the combinations in which a listed class that is missing from the jar is (transitively) the enclosing class of a listed class that is present: the missing class is not renamed '
+                  '(it is not present), it is created as an empty class, the present class is nested into it under its listed name; the result does not depend on the order of the rows.',
+             bound='the 720 (jar, table, row order) combinations of that universe with a missing listed class enclosing a present listed class; 720 cases'),
+        dict(name='jar_attributes_without_renaming', props=['C14'], tier='quick', timeout=600,
+             text='nest_jar(remap = false) adds exactly the same InnerClasses / EnclosingMethod attributes and created classes and changes no name anywhere.',
+             bound='the 4168 combinations of jar_nesting_absent_classes + jar {p/U, p/H, p/C1, p/C2} x all 1080 tables over 2 candidates x ' + _V13 + '; 5248 cases'),
+        dict(name='jar_nesting_wide__generic_signatures', props=['C14'], tier='quick', timeout=600,
+             text='References inside generic Signature attributes (class, field, method) are rewritten like every other reference.',
+             bound='jar {p/U, p/H, p/C1, p/C2} with a class, a field and a method signature naming every class of the pool; all 117 tables over 2 candidates x variants {inner custom, local in n(Lp/C1;)V, anonymous in m()V, anonymous "0"}; 117 cases'),
+        dict(name='jar_nesting_wide__anonymous_index_beyond_i32', props=['C14'], tier='quick', timeout=600,
+             text='An anonymous nest whose inner name is a positive decimal number is applied also when the number does not fit 32 bits.',
+             bound='inner names 2147483647, 2147483648, 4294967297, 99999999999999999999 x enclosing class p/H / p/M x with / without enclosing method; 16 cases'),
+        dict(name='translate_nests', props=['C14'], tier='quick', timeout=600,
+             text='remap_nests keeps every nest and expresses class, enclosing class, enclosing method (name through the mappings of the enclosing class, descriptor rewritten) and inner name in the target namespace: '
+                  'unmapped names stay, Outer__Inner target names are split, derived inner names follow the mapped simple name (digit prefix kept), Calamus names C_<n> give anonymous index n, custom names stay; kind and access flags unchanged.',
+             bound='24 mapping sets (p/H mapped or not x p/C1 absent / Plain / Calamus / PreNested x p/C2 absent / Plain / PreNested; p/C3 Plain) x (39 single nests: p/C1 in p/H / p/M / p/C2 x 13 variants '
+                   '+ the 1952 tables with at least 2 rows over 3 candidates x variants {inner custom, inner derived, local 2Ci in n(Lp/C1;)V, anonymous in m()V}); 47784 cases'),
+        dict(name='translate_nests_dollar_source_names', props=['C14'], tier='quick', timeout=600,
+             text='For a source name that is itself a nested name (p/H$C1) the derived inner name is the part after the `$`; it is translated like a derived name, custom names stay.',
+             bound='class p/H$C1 -> t/TH$X1 / t/X1 / t/u/C_17, p/H mapped or not, 5 nests (inner C1, inner Cu, local 3C1, local 3Cu, anonymous 5); 30 cases'),
+        dict(name='translate_nests__custom_name_that_is_a_suffix', props=['C14'], tier='quick', timeout=600,
+             text='A custom inner name that merely is a proper suffix of the class name (In for p/XIn, c for p/abc, 1Lo for p/XLo, 7bc for p/q/abc) is a custom name and stays.',
+             bound='5 classes (p/XIn/In, p/C12/C2, p/abc/c, p/XLo/1Lo, p/q/abc/7bc) x target t/Y / t/u/C_99; 10 cases'),
+        dict(name='mappings_apply_and_undo', props=['C14'], tier='thorough', timeout=1200,
+             text='apply_nests_to_mappings renames every listed class in the source namespace to its nested name (all rows, no filter), carries out the translated table in the target namespace, rewrites field and method '
+                  'descriptors (source namespace) and touches nothing else (member names, comments, parameters); undo_nests_to_mappings of the result restores source names and descriptors.',
+             bound='all 1989 tables over 3 candidates x variants {inner custom, inner derived, local 2Ci in n(Lp/C1;)V, anonymous in m()V} x 62 mapping sets (p/H mapped or not x (27 shape triples over Plain / Calamus / PreNested '
+                   '+ 3 sets with one candidate absent + 1 with all absent)); 123318 cases'),
+        dict(name='jar_and_mappings_agree', props=['C14'], tier='quick', timeout=900,
+             text='For tables whose entries all apply to the jar, the real nest_jar and the real apply_nests_to_mappings give every class (identified by SourceFile / comment marks, the created enclosing class included) the same name, '
+                  'and every jar entry is stored under the name of the class it holds.',
+             bound='jar {p/U, p/H, p/C1..p/C4}, mappings for all of them and for p/M; the 9570 tables over 3 candidates x 7 variants {0, 1, 3, 5, 8, 9, 12} + the 3150 tables over 4 candidates x {inner derived, anonymous in m()V} that list p/C4; '
+                   '1338 tables with an entry that does not apply are skipped; 11382 cases'),
+        # outside the text of C14 (a cyclic table has no nested names at all): kept in the harness as a robustness probe, not an obligation of any property
+        dict(name='cyclic_table_returns', props=[], tier='thorough', timeout=600,
+             text='(robustness probe, not part of C14) On a cyclic table nest_jar, apply_nests_to_mappings, undo_nests_to_mappings and remap_nests return Ok or Err: no unbounded recursion (stack overflow kills the process), no hang; each call runs in a child process.',
+             bound='4 functions x 4 cyclic tables (self loop; two classes; three classes of all kinds; a tail leading into a two-cycle); 16 cases'),
+        dict(name='canary_must_fail', props=[], canary=True, text='must fail', bound=''),
+    ])
